@@ -197,6 +197,16 @@ def check(ctx):
     bad = ctx.judge("ListsTrace", [t1, t2])
     for b in bad: b["driver"] = "drv_lists"
     ctx.report(bad)
+    # items whose link fields lie more than 4 GiB behind the start of the object (member offsets that do not fit 32 bits): a second build
+    # of the driver with such an item type, C++ lists only, a few random scripts
+    drvh = ctx.cxx("drv_lists_huge", ["drv_lists.cpp"] + REPO_SRC, flags=["-DHUGE_ITEMS=8"])
+    hs = []
+    for i in range(40 if ctx.thorough else 8):
+        hs += random_dlist(ctx.rng, "cxx", ctx.rng.randrange(1, 4), ctx.rng.randrange(1, 7), 60)
+    th = ctx.drive(drvh, hs, "lists_huge", lines_per_proc=100)
+    bad = ctx.judge("ListsTrace", [th], label="ListsHugeItems")
+    for b in bad: b["driver"] = "drv_lists_huge"
+    ctx.report(bad)
     # long lists (more than a thousand nodes): reference = the sequence of nodes, judged by ListsBigTrace.tla
     big = []
     for i, nn in enumerate([1100, 1500] + ([1001, 1999] if ctx.thorough else [])):
@@ -220,7 +230,7 @@ def check(ctx):
 def replay(ctx, path):
     d = json.load(open(path))
     name = d.get("driver") or "drv_lists"
-    drv = ctx.cxx(name, [name + ".cpp"] + (REPO_SRC if name == "drv_lists" else []))
+    drv = ctx.cxx(name, ["drv_lists.cpp"] + REPO_SRC, flags=["-DHUGE_ITEMS=8"]) if name == "drv_lists_huge" else ctx.cxx(name, [name + ".cpp"] + (REPO_SRC if name == "drv_lists" else []))
     lines = []
     for e in d["execution"]:
         if e["e"] == "Reset":
